@@ -283,7 +283,15 @@ class CInt:
         return CInt(_ite(neg.e, (-a).e if not isinstance((-a).e, int) else _val((-a).e, a.t), a.e if not isinstance(a.e, int) else _val(a.e, a.t)), a.t)
 
     def __truediv__(self, o):
-        raise Escape("true division of C integers (float result)")
+        # language_level 3: C int / C int is a double; the harness names the float domain (FLOAT_DOMAIN)
+        if FLOAT_DOMAIN is None:
+            raise Escape("true division of C integers (float result)")
+        return FLOAT_DOMAIN(self) / FLOAT_DOMAIN(o)
+
+    def __rtruediv__(self, o):
+        if FLOAT_DOMAIN is None:
+            raise Escape("true division of C integers (float result)")
+        return FLOAT_DOMAIN(o) / FLOAT_DOMAIN(self)
 
     # ------------------------------------------------------------------ comparisons
     def _cmp(self, o, name):
@@ -470,6 +478,7 @@ def _binop(name, a, b, t):
 
 
 # ------------------------------------------------------------------------------ views
+FLOAT_DOMAIN = None      # callable turning an int / CInt into the float stand-in of the running harness (CRat, CFloat)
 DEFER_SAFETY = False      # set by harnesses that run if-converted kernels and add SAFETY to their claim
 NOCHECK = 0               # >0 while the old value of an if-converted assignment target is read
 GUARDS = []               # symbolic guards of the if-converted branches being evaluated
